@@ -595,7 +595,11 @@ def run(prog, rep, tier):
         if body is None:
             continue
         # the wrapping may happen in a closure of the function (`recipients.iter().map(|key| ..).collect()`)
-        carriers = [c for c in [body] + list(prog.closures_of(body)) if any(cnorm(b.term) == 'crypto::aesgcm::AesGcm256::new' for b in c.calls())]
+        # ... or in a private per-recipient helper called from there: helpers are spliced into the function and into its closures
+        from ..inline import inlined_body as _inl
+        _skip = ('derive_key', 'new', 'encrypt', 'decrypt', 'into_tag')
+        carriers = [c for c in [_inl(prog, body, depth=1, skip=_skip)] + [_inl(prog, c_, depth=1, skip=_skip) for c_ in prog.closures_of(body)]
+                    if any(cnorm(b.term) == 'crypto::aesgcm::AesGcm256::new' for b in c.calls())]
         if len(carriers) == 1:
             body = carriers[0]
         news = [b for b in body.calls() if cnorm(b.term) == 'crypto::aesgcm::AesGcm256::new']
